@@ -8,6 +8,9 @@ CHECKS = {
  "C01": dict(technique="reference-model monitor: numpy Bellman oracle on every entry of every value array of generated models; in-situ monitor on per-period conditional value arrays (jit=False); jax checkify index sanitizer",
              text="Held on K generated supported models (2 parameter sets each, jit on/off, x64 on/off): every entry of every period compared with an independent numpy backward induction. Exploration, not proof: model space is unbounded, sizes bounded by XLA compile time.",
              ref="5/C01", note="trusted: numpy float64, the 150-line reference model, the harness-side jax.util shim; user functions evaluated in both array libraries"),
+ "C02": dict(technique="reference-model monitor over recorded panels: Q over all grid choices per (agent, period) row; in-situ post-conditions on argmax/segment_argmax and on the data state-choice space inside real simulate() runs",
+             text="Held on K generated models x initial-state batches x three kinds of value arrays (own solution, reference solution, random): every in-scope row's choices are grid values, feasible and value-maximal by the reference model's Q. Exploration over generated structure; judged on values so ties cannot alarm.",
+             ref="5/C02", note="trusted: numpy reference Q-values and path-validity screening; harness jax.util shim"),
 }
 DEFAULT_NA = "check not built yet in this revision of /verif (planned in DESIGN.md section 5)"
 
